@@ -90,7 +90,9 @@ type simCkptEvent struct {
 type simWorld struct {
 	mu      sync.Mutex
 	objs    map[string][]byte
+	hist    map[string][][]byte // every version each key ever had (uploads), for roll-back tampering
 	opts    map[string]UploadOptions
+	tampered bool // storage was modified behind the server's back: write-once and publication bookkeeping no longer apply
 	lock    map[[32]byte][]byte
 	opN     int
 	clock   int64
@@ -110,7 +112,7 @@ type simWorld struct {
 }
 
 func newSimWorld(cachePath string) *simWorld {
-	return &simWorld{objs: map[string][]byte{}, opts: map[string]UploadOptions{}, lock: map[[32]byte][]byte{},
+	return &simWorld{objs: map[string][]byte{}, hist: map[string][][]byte{}, opts: map[string]UploadOptions{}, lock: map[[32]byte][]byte{},
 		clock: 1_700_000_000_000, cachePath: cachePath}
 }
 
@@ -377,10 +379,11 @@ func (b *simBackend) Upload(ctx context.Context, key string, data []byte, opts *
 			o = *opts
 		}
 		writeOnce := w.opts[key].Immutable || op.Class == "tile" || op.Class == "issuer" || op.Class == "staging"
-		if had && writeOnce && !bytes.Equal(old, data) {
+		if had && writeOnce && !bytes.Equal(old, data) && !w.tampered {
 			w.violate("immutable object %q rewritten with different bytes (op %d, proc %d)", key, op.N, p.id)
 		}
 		w.objs[key] = bytes.Clone(data)
+		w.hist[key] = append(w.hist[key], w.objs[key])
 		w.opts[key] = o
 		if key == "checkpoint" {
 			w.pubLog = append(w.pubLog, simCkptEvent{op.N, p.id, bytes.Clone(data)})
